@@ -250,17 +250,22 @@ def st_warn_csv(draw):
             else:
                 fields.append(draw(st.sampled_from(['a', 'b', '', 'x' + out_dlm[0] + 'y', 'x' + out_dlm + 'y', '"q"', 'a"b', '"a%sb"' % dlm, '" x"', 'é', ' "s" ', '"un', ';', ','])))
         lines.append(dlm.join(fields))
+    comment = draw(st.sampled_from([None, None, '#', '//']))
+    if comment is not None:
+        # comment lines are skipped by the reader but still count as physical lines (line numbers in warnings)
+        for _ in range(draw(st.integers(0, 3))):
+            lines.insert(draw(st.integers(0, len(lines))), comment + draw(st.sampled_from([' note', '"unbalanced', 'a%sb%sc' % (dlm, dlm), ''])))
     text = ''.join(l + draw(st.sampled_from(['\n', '\n', '\r\n'])) for l in lines)
     if in_policy == 'quoted_rfc':
         # keep quotes balanced per line so that records are lines (multi-line records are C12's subject)
-        text = ''.join(l + '\n' for l in lines if l.count('"') % 2 == 0)
+        text = ''.join(l + '\n' for l in lines if l.count('"') % 2 == 0 or (comment is not None and l.startswith(comment)))
     bom = (not clean) and draw(st.integers(0, 4)) == 0
-    query = draw(st.sampled_from(['select *', 'select a1, a2', 'select a1, None', 'select a2, a1 where NR > 0', 'select NR, a1', 'select a1, a3']))
-    return {'kind': 'warn-csv', 'text': text, 'bom': bom, 'in_policy': in_policy, 'delim': dlm, 'out_policy': out_policy, 'out_delim': out_dlm, 'query': query, 'clean': clean}
+    query = draw(st.sampled_from(['select *', 'select a1, a2', 'select a1, None', 'select a2, a1 where NR > 0', 'select NR, a1', 'select a1, a3', 'select a1, [a1, a2]', 'select ARRAY_AGG(a2), ARRAY_AGG(a1)']))
+    return {'kind': 'warn-csv', 'comment': comment, 'text': text, 'bom': bom, 'in_policy': in_policy, 'delim': dlm, 'out_policy': out_policy, 'out_delim': out_dlm, 'query': query, 'clean': clean}
 
 
 def expected_csv_warnings(case):
-    res = refcsv.read_table((refcsv.BOM if case['bom'] else '') + case['text'], case['delim'], case['in_policy'], None, True)
+    res = refcsv.read_table((refcsv.BOM if case['bom'] else '') + case['text'], case['delim'], case['in_policy'], case.get('comment'), True)
     if res['error'] is not None:
         return None, None
     warns = set(refcsv.warnings_text(res))
@@ -279,14 +284,29 @@ def expected_csv_warnings(case):
             out.append([g(1), g(0)])
         elif q == 'select NR, a1':
             out.append([str(nr), g(0)])
+        elif q == 'select a1, [a1, a2]':
+            out.append([g(0), [g(0), g(1)]])
+        elif q == 'select ARRAY_AGG(a2), ARRAY_AGG(a1)':
+            pass
         else:
             out.append([g(0), g(2)])
-    if any(c is None for r in out for c in r):
+    if q == 'select ARRAY_AGG(a2), ARRAY_AGG(a1)' and recs:
+        out = [[[ (r[1] if len(r) > 1 else None) for r in recs], [(r[0] if r else None) for r in recs]]]
+    sub = '|' if case['out_delim'] != '|' else ';'
+
+    def has_none(v):
+        return v is None or (isinstance(v, list) and any(has_none(x) for x in v))
+
+    def flat_text(v):
+        return sub.join(flat_text(x) for x in v) if isinstance(v, list) else ('' if v is None else v)
+    none_anywhere = any(has_none(c) for r in out for c in r)
+    out = [[flat_text(c) for c in r] for r in out]
+    if none_anywhere:
         warns.add('None values in output were replaced by empty strings')
     od = case['out_delim']
     undecidable = False
     if case['out_policy'] == 'simple':
-        flat = [c for r in out for c in r if c is not None]
+        flat = [c for r in out for c in r]
         if any(refcsv.find_from(c, od, 0) != -1 for c in flat):
             warns.add('Some output fields contain separator')
         elif len(od) > 1 and any(any(ch in c for ch in od) for c in flat):
@@ -304,7 +324,7 @@ def check_warn_csv(case, stats=None, scratch=None):
     exp, undecidable = expected_csv_warnings(case)
     got = []
     try:
-        engine.rbql.query_csv(case['query'], src, case['delim'], case['in_policy'], dst, case['out_delim'], case['out_policy'], 'utf-8', got, False)
+        engine.rbql.query_csv(case['query'], src, case['delim'], case['in_policy'], dst, case['out_delim'], case['out_policy'], 'utf-8', got, False, case.get('comment'))
         err = None
     except Exception as e:
         err = engine.err_info(e)
